@@ -431,6 +431,28 @@ var leafInlineDepth int
 
 func leafResult(call *ssa.Call, idx int, d int) (string, bool) {
 	sc := call.Call.StaticCallee()
+	if sc != nil && !call.Call.IsInvoke() && !leafHelper(sc) && leafInlineDepth < 2 {
+		// a private helper with branches one of whose results is the same plain read on every
+		// return (`return s.bestEffort, tq`): that result reads as the expression it is
+		if v := constantResult(sc, idx); v != nil {
+			ns := map[*ssa.Parameter]string{}
+			for k, vv := range descSubst {
+				ns[k] = vv
+			}
+			for j, par := range sc.Params {
+				if j < len(call.Call.Args) {
+					ns[par] = descN(call.Call.Args[j], d)
+				}
+			}
+			saved := descSubst
+			descSubst = ns
+			leafInlineDepth++
+			out := descN(v, d)
+			leafInlineDepth--
+			descSubst = saved
+			return out, true
+		}
+	}
 	if sc == nil || call.Call.IsInvoke() || !leafHelper(sc) || leafInlineDepth >= 2 {
 		return "", false
 	}
@@ -462,6 +484,54 @@ func leafResult(call *ssa.Call, idx int, d int) (string, bool) {
 }
 
 var leafHelperCache = map[*ssa.Function]bool{}
+
+// constantResult: result idx of private module function f is, on every return, the same value,
+// computed in the entry block from loads of fields of its parameters only.
+func constantResult(f *ssa.Function, idx int) ssa.Value {
+	if f.Blocks == nil || f.Parent() != nil || !lowerName(f.Name()) || len(f.Blocks) > 12 {
+		return nil
+	}
+	if _, in := Rel(pkgPathOf(f)); !in {
+		return nil
+	}
+	var v ssa.Value
+	for _, b := range f.Blocks {
+		ret, ok := b.Instrs[len(b.Instrs)-1].(*ssa.Return)
+		if !ok {
+			continue
+		}
+		if idx >= len(ret.Results) {
+			return nil
+		}
+		rv := ret.Results[idx]
+		if v == nil {
+			v = rv
+		} else if v != rv {
+			return nil
+		}
+	}
+	if v == nil {
+		return nil
+	}
+	// a pure read chain in the entry block
+	x := v
+	for i := 0; i < 6; i++ {
+		switch y := x.(type) {
+		case *ssa.UnOp:
+			if y.Op != token.MUL || y.Block() != f.Blocks[0] {
+				return nil
+			}
+			x = y.X
+		case *ssa.FieldAddr:
+			x = y.X
+		case *ssa.Parameter:
+			return v
+		default:
+			return nil
+		}
+	}
+	return nil
+}
 
 func leafHelper(f *ssa.Function) bool {
 	if v, ok := leafHelperCache[f]; ok {
